@@ -12,7 +12,7 @@ namespace Leptos.Async
 
 def AwOK (ld : Bool) (a : Aw) : Prop :=
   (a.done = false → a.woken = true ∨ a.parked = true) ∧ (a.parked = true → ld = true) ∧
-  (a.done = true → a.result ≠ none)
+  (a.done = true → a.kind ≠ .tick → a.result ≠ none)
 
 theorem AwOK.wake {ld : Bool} {a : Aw} (h : AwOK ld a) : AwOK false (wakeAw a) := by
   unfold AwOK wakeAw at *; split <;> simp_all
@@ -22,7 +22,7 @@ theorem AwOK.loading {ld : Bool} {a : Aw} (h : AwOK ld a) : AwOK true a := by
 
 theorem AwOK.poll {ld : Bool} {v : Option Val} {a : Aw} (h : AwOK ld a) (hv : ld = false → v ≠ none) :
     AwOK ld (pollAw ld v a) := by
-  unfold AwOK pollAw at *; split <;> simp_all
+  unfold AwOK pollAw at *; (repeat' split) <;> simp_all
 
 theorem awAll_wake {ld : Bool} {l : List Aw} (h : ∀ a ∈ l, AwOK ld a) :
     ∀ a ∈ l.map wakeAw, AwOK false a := by
@@ -56,6 +56,53 @@ theorem awAll_poll {ld : Bool} {v : Option Val} {l : List Aw} {i : Nat} (h : ∀
   · exact h a ha
   · exact (h b hb).poll hv
 
+/-! ## tick tasks (`LocalResource`) -/
+
+/-- a live, woken tick task of fetch number `nf` -/
+def isTickOf (nf : Nat) (a : Aw) : Bool := decide (a.kind = .tick) && decide (a.tag = nf) && a.woken && !a.done
+
+/-- the tick task of the fetch in flight has not been polled yet (so the executor is not idle) -/
+def tickLive (s : State) : Prop := (s.nf = 1 ∧ s.tick0 = true) ∨ s.aws.any (isTickOf s.nf) = true
+
+theorem anyTick_wake (nf : Nat) (l : List Aw) (h : l.any (isTickOf nf) = true) :
+    (l.map wakeAw).any (isTickOf nf) = true := by
+  rw [List.any_eq_true] at h ⊢
+  obtain ⟨a, ha, hp⟩ := h
+  refine ⟨wakeAw a, List.mem_map_of_mem ha, ?_⟩
+  unfold wakeAw isTickOf at *
+  split <;> simp_all
+
+theorem anyTick_append_left (nf : Nat) (l m : List Aw) (h : l.any (isTickOf nf) = true) :
+    (l ++ m).any (isTickOf nf) = true := by simp [List.any_append, h]
+
+/-- polling task `i` keeps the witness unless task `i` is itself the tick of the fetch in flight -/
+theorem anyTick_poll (nf : Nat) (ld : Bool) (v : Option Val) (l : List Aw) (i : Nat)
+    (h : l.any (isTickOf nf) = true) (hf : tickFires nf l[i]? = false) :
+    (modifyAt (pollAw ld v) l i).any (isTickOf nf) = true := by
+  induction l generalizing i with
+  | nil => simp at h
+  | cons a as ih =>
+    cases i with
+    | zero =>
+      simp only [modifyAt, List.any_cons, Bool.or_eq_true] at h ⊢
+      rcases h with h | h
+      · -- the head is a live tick of this fetch: then it fires
+        exfalso
+        simp only [List.getElem?_cons_zero, tickFires, isTickOf, Bool.and_eq_true, decide_eq_true_eq,
+          Bool.not_eq_true'] at hf h
+        simp_all
+      · exact .inr h
+    | succ i =>
+      simp only [modifyAt, List.any_cons, Bool.or_eq_true, List.getElem?_cons_succ] at h hf ⊢
+      rcases h with h | h
+      · exact .inl h
+      · exact .inr (ih i h hf)
+
+theorem tickLive_append {s : State} (m : List Aw) (h : tickLive s) : tickLive { s with aws := s.aws ++ m } := by
+  rcases h with h | h
+  · exact .inl h
+  · exact .inr (anyTick_append_left _ _ _ h)
+
 /-! ## the invariant -/
 
 /-- the subscriber effect, except wake-ups (holds also in the middle of the effect's own poll) -/
@@ -85,6 +132,8 @@ structure DCore (s : State) : Prop where
   s1 : s.viaMemo = true → s.smDirty = false → s.smVal = s.src ∧ s.smRc = s.rc
   /-- no lost wake-up: a dirty source memo means the derived's channel flag is set -/
   s2 : s.smDirty = true → s.chan = true
+  /-- no lost wake-up: while the tick of the current fetch has not fired its task is live and woken -/
+  t1 : s.tickFired = false → tickLive s
 
 /-- the derived's task at rest (between events) -/
 structure DRest (s : State) : Prop where
@@ -93,7 +142,8 @@ structure DRest (s : State) : Prop where
   r4 : s.pc ≠ .start → s.firstRun = false ∧ s.initialFut = false
   r5 : s.pc = .waiting → s.loading = false ∧ (s.dWoken = false → s.reg = true ∧ s.chan = false)
   r6 : s.pc = .fetching → (s.curStatus = .pending ∨ s.curStatus = .ready) ∧ s.fetchVersion = s.version ∧
-        (s.curStatus = .ready → s.dWoken = true)
+        (s.tickFired = true → s.curStatus = .ready → s.dWoken = true) ∧
+        (s.tickFired = true → s.dWoken = false → s.dataReg = true)
   fresh : s.stolen = false → s.dstate = .clean →
         (s.pc = .waiting → s.manualLive = false → s.value = some (fetchFn (inputsNow s))) ∧
         (s.pc ≠ .waiting → s.curInputs = inputsNow s)
@@ -121,33 +171,62 @@ structure Mid (s : State) : Prop where
   ew : EWake s
 
 macro "inv_cases" : tactic =>
-  `(tactic| (refine ⟨⟨?_, ?_, ?_, ?_, ?_, ?_, ?_⟩, ⟨?_, ?_, ?_, ?_, ?_⟩, ⟨?_, ?_, ?_, ?_, ?_, ?_, ?_⟩, ⟨?_, ?_, ?_⟩⟩))
+  `(tactic| (refine ⟨⟨?_, ?_, ?_, ?_, ?_, ?_, ?_, ?_⟩, ⟨?_, ?_, ?_, ?_, ?_⟩, ⟨?_, ?_, ?_, ?_, ?_, ?_, ?_⟩, ⟨?_, ?_, ?_⟩⟩))
 
 theorem Inv.init (c : Cfg) : Inv (init c) := by
   unfold Async.init
-  inv_cases <;> simp [lastSeen, hasEffect, hasMemo, inputsNow] <;> (cases c.eff <;> simp)
+  inv_cases <;> simp [lastSeen, hasEffect, hasMemo, inputsNow, tickLive] <;> (cases c.eff <;> simp)
 
 theorem Inv.dMarkDirtySrc {s : State} (h : Inv s) (x : List Val) (hv : s.viaMemo = false ∨ x = s.src) :
     Inv (Async.dMarkDirty { s with src := x }) := by
-  obtain ⟨⟨r1, r2, r7, m1, aw, s1, s2⟩, ⟨r3, r4, r5, r6, fresh⟩, ⟨e1, e2, e3, e5, e6, e7, e8⟩, ⟨w1, w2, w3⟩⟩ := h
+  obtain ⟨⟨r1, r2, r7, m1, aw, s1, s2, t1⟩, ⟨r3, r4, r5, r6, fresh⟩, ⟨e1, e2, e3, e5, e6, e7, e8⟩, ⟨w1, w2, w3⟩⟩ := h
   unfold Async.dMarkDirty dNotify
-  inv_cases <;> (simp only [lastSeen, inputsNow] at *; split <;> try split) <;>
+  inv_cases <;> (simp only [lastSeen, inputsNow, tickLive] at *; split <;> try split) <;>
     (rcases hv with hv | hv) <;> simp_all
 
 /-- a source write when the fetcher reads through the source memo: the memo is marked `Dirty`, the
 derived is only asked to check -/
 theorem Inv.smMarkDirtySrc {s : State} (h : Inv s) (x : List Val) (hv : s.viaMemo = true) :
     Inv (smMarkDirty { s with src := x }) := by
-  obtain ⟨⟨r1, r2, r7, m1, aw, s1, s2⟩, ⟨r3, r4, r5, r6, fresh⟩, ⟨e1, e2, e3, e5, e6, e7, e8⟩, ⟨w1, w2, w3⟩⟩ := h
+  obtain ⟨⟨r1, r2, r7, m1, aw, s1, s2, t1⟩, ⟨r3, r4, r5, r6, fresh⟩, ⟨e1, e2, e3, e5, e6, e7, e8⟩, ⟨w1, w2, w3⟩⟩ := h
   unfold smMarkDirty dMarkCheck dNotify
-  inv_cases <;> (simp only [lastSeen, inputsNow] at *; split <;> try split) <;> simp_all
+  inv_cases <;> (simp only [lastSeen, inputsNow, tickLive] at *; split <;> try split) <;> simp_all
 
 theorem Inv.dMarkDirty {s : State} (h : Inv s) : Inv (Async.dMarkDirty s) := h.dMarkDirtySrc s.src (.inr rfl)
 
 theorem Inv.mMarkDirty {s : State} (h : Inv s) : Inv (mMarkDirty s) := by
-  obtain ⟨⟨r1, r2, r7, m1, aw, s1, s2⟩, ⟨r3, r4, r5, r6, fresh⟩, ⟨e1, e2, e3, e5, e6, e7, e8⟩, ⟨w1, w2, w3⟩⟩ := h
+  obtain ⟨⟨r1, r2, r7, m1, aw, s1, s2, t1⟩, ⟨r3, r4, r5, r6, fresh⟩, ⟨e1, e2, e3, e5, e6, e7, e8⟩, ⟨w1, w2, w3⟩⟩ := h
   unfold Async.mMarkDirty eMarkCheck eNotify
-  inv_cases <;> (simp only [lastSeen, inputsNow] at *; (try split) <;> try split) <;> simp_all <;> grind
+  inv_cases <;> (simp only [lastSeen, inputsNow, tickLive] at *; (try split) <;> try split) <;> simp_all <;> grind
+
+/-- `Resource::refetch`: the counter signal is bumped, the memo marked, the derived asked to check -/
+theorem Inv.smMarkDirtyRc {s : State} (h : Inv s) (x : Nat) : Inv (smMarkDirty { s with rc := x }) := by
+  obtain ⟨⟨r1, r2, r7, m1, aw, s1, s2, t1⟩, ⟨r3, r4, r5, r6, fresh⟩, ⟨e1, e2, e3, e5, e6, e7, e8⟩, ⟨w1, w2, w3⟩⟩ := h
+  unfold smMarkDirty dMarkCheck dNotify
+  inv_cases <;> (simp only [lastSeen, inputsNow, tickLive] at *; split <;> try split) <;> simp_all
+
+theorem Inv.refetch {s : State} (h : Inv s) : Inv (refetch s) := by
+  unfold Async.refetch
+  split
+  · exact h.smMarkDirtyRc _
+  · exact h.dMarkDirty
+
+/-- a synchronous read by the boundary: a reader task is spawned, nothing else the invariant talks about -/
+theorem Inv.bread {s : State} (h : Inv s) : Inv (bread s) := by
+  obtain ⟨⟨r1, r2, r7, m1, aw, s1, s2, t1⟩, ⟨r3, r4, r5, r6, fresh⟩, ⟨e1, e2, e3, e5, e6, e7, e8⟩, ⟨w1, w2, w3⟩⟩ := h
+  have happ : ∀ a ∈ s.aws ++ [({ kind := .reader } : Aw)], AwOK s.loading a := by
+    intro a ha
+    rcases List.mem_append.mp ha with ha | ha
+    · exact aw a ha
+    · simp at ha; subst ha; simp [AwOK]
+  have htl : ∀ m : List Aw, s.tickFired = false → (s.nf = 1 ∧ s.tick0 = true) ∨ (s.aws ++ m).any (isTickOf s.nf) = true :=
+    fun m hf => tickLive_append m (t1 hf)
+  unfold Async.bread
+  split
+  · split
+    · inv_cases <;> (try exact htl _) <;> simp_all [lastSeen, inputsNow]
+    · exact ⟨⟨r1, r2, r7, m1, aw, s1, s2, t1⟩, ⟨r3, r4, r5, r6, fresh⟩, ⟨e1, e2, e3, e5, e6, e7, e8⟩, ⟨w1, w2, w3⟩⟩
+  · inv_cases <;> (try exact htl _) <;> simp_all [lastSeen, inputsNow]
 
 theorem Inv.setSrc {s : State} (h : Inv s) (i : Nat) (v : Val) : Inv (setSrc s i v) := by
   unfold Async.setSrc
@@ -168,23 +247,41 @@ theorem Inv.setSrc {s : State} (h : Inv s) (i : Nat) (v : Val) : Inv (setSrc s i
   · exact h
 
 theorem Inv.complete {s : State} (h : Inv s) (f : Nat) : Inv (complete s f) := by
-  obtain ⟨⟨r1, r2, r7, m1, aw, s1, s2⟩, ⟨r3, r4, r5, r6, fresh⟩, ⟨e1, e2, e3, e5, e6, e7, e8⟩, ⟨w1, w2, w3⟩⟩ := h
+  obtain ⟨⟨r1, r2, r7, m1, aw, s1, s2, t1⟩, ⟨r3, r4, r5, r6, fresh⟩, ⟨e1, e2, e3, e5, e6, e7, e8⟩, ⟨w1, w2, w3⟩⟩ := h
   unfold Async.complete
-  inv_cases <;> (simp only [lastSeen, inputsNow] at *; split) <;> simp_all <;> grind
+  inv_cases <;> (simp only [lastSeen, inputsNow, tickLive] at *; split) <;> simp_all <;> grind
 
 theorem Inv.attach {s : State} (h : Inv s) : Inv { s with aws := s.aws ++ [{}] } := by
-  obtain ⟨⟨r1, r2, r7, m1, aw, s1, s2⟩, ⟨r3, r4, r5, r6, fresh⟩, ⟨e1, e2, e3, e5, e6, e7, e8⟩, ⟨w1, w2, w3⟩⟩ := h
-  inv_cases <;> simp_all [lastSeen, inputsNow]
+  obtain ⟨⟨r1, r2, r7, m1, aw, s1, s2, t1⟩, ⟨r3, r4, r5, r6, fresh⟩, ⟨e1, e2, e3, e5, e6, e7, e8⟩, ⟨w1, w2, w3⟩⟩ := h
+  have htl : s.tickFired = false → (s.nf = 1 ∧ s.tick0 = true) ∨ (s.aws ++ [({} : Aw)]).any (isTickOf s.nf) = true :=
+    fun hf => tickLive_append _ (t1 hf)
+  inv_cases <;> (try exact htl) <;> simp_all [lastSeen, inputsNow]
   intro a ha
   rcases ha with ha | ha
   · exact aw a ha
   · subst ha; simp [AwOK]
 
 theorem Inv.pollA {s : State} (h : Inv s) (i : Nat) : Inv (pollA s i) := by
-  obtain ⟨⟨r1, r2, r7, m1, aw, s1, s2⟩, ⟨r3, r4, r5, r6, fresh⟩, ⟨e1, e2, e3, e5, e6, e7, e8⟩, ⟨w1, w2, w3⟩⟩ := h
+  obtain ⟨⟨r1, r2, r7, m1, aw, s1, s2, t1⟩, ⟨r3, r4, r5, r6, fresh⟩, ⟨e1, e2, e3, e5, e6, e7, e8⟩, ⟨w1, w2, w3⟩⟩ := h
+  have htl : (s.tickFired || tickFires s.nf s.aws[i]?) = false →
+      (s.nf = 1 ∧ s.tick0 = true) ∨ (modifyAt (pollAw s.loading s.value) s.aws i).any (isTickOf s.nf) = true := by
+    intro hf
+    simp only [Bool.or_eq_false_iff] at hf
+    rcases t1 hf.1 with h | h
+    · exact .inl h
+    · exact .inr (anyTick_poll _ _ _ _ _ h hf.2)
   unfold Async.pollA
-  inv_cases <;> simp_all [lastSeen, inputsNow]
-  exact awAll_poll aw r7
+  inv_cases <;> (try exact htl) <;> simp_all [lastSeen, inputsNow]
+  · exact awAll_poll aw r7
+  all_goals grind
+
+/-- the tick task of fetch 0 -/
+theorem Inv.pollT0 {s : State} (h : Inv s) : Inv (pollT0 s) := by
+  obtain ⟨⟨r1, r2, r7, m1, aw, s1, s2, t1⟩, ⟨r3, r4, r5, r6, fresh⟩, ⟨e1, e2, e3, e5, e6, e7, e8⟩, ⟨w1, w2, w3⟩⟩ := h
+  unfold Async.pollT0
+  split
+  · inv_cases <;> simp_all [lastSeen, inputsNow, tickLive] <;> grind
+  · inv_cases <;> simp_all [lastSeen, inputsNow, tickLive]
 
 /-! ## `notify_subs` -/
 
@@ -202,6 +299,9 @@ macro "ns_frame" : tactic =>
 @[simp] theorem notifySubs_curInputs (s : State) : (notifySubs s).curInputs = s.curInputs := by ns_frame
 @[simp] theorem notifySubs_version (s : State) : (notifySubs s).version = s.version := by ns_frame
 @[simp] theorem notifySubs_fetchVersion (s : State) : (notifySubs s).fetchVersion = s.fetchVersion := by ns_frame
+@[simp] theorem notifySubs_tick0 (s : State) : (notifySubs s).tick0 = s.tick0 := by ns_frame
+@[simp] theorem notifySubs_tickFired (s : State) : (notifySubs s).tickFired = s.tickFired := by ns_frame
+@[simp] theorem notifySubs_dataReg (s : State) : (notifySubs s).dataReg = s.dataReg := by ns_frame
 @[simp] theorem notifySubs_nf (s : State) : (notifySubs s).nf = s.nf := by ns_frame
 @[simp] theorem notifySubs_stolen (s : State) : (notifySubs s).stolen = s.stolen := by ns_frame
 @[simp] theorem notifySubs_dstate (s : State) : (notifySubs s).dstate = s.dstate := by ns_frame
@@ -210,6 +310,8 @@ macro "ns_frame" : tactic =>
 @[simp] theorem notifySubs_lastManual (s : State) : (notifySubs s).lastManual = s.lastManual := by ns_frame
 @[simp] theorem notifySubs_viaMemo (s : State) : (notifySubs s).viaMemo = s.viaMemo := by ns_frame
 @[simp] theorem notifySubs_smDirty (s : State) : (notifySubs s).smDirty = s.smDirty := by ns_frame
+@[simp] theorem notifySubs_smRc (s : State) : (notifySubs s).smRc = s.smRc := by ns_frame
+@[simp] theorem notifySubs_rc (s : State) : (notifySubs s).rc = s.rc := by ns_frame
 @[simp] theorem notifySubs_smVal (s : State) : (notifySubs s).smVal = s.smVal := by ns_frame
 @[simp] theorem notifySubs_src (s : State) : (notifySubs s).src = s.src := by ns_frame
 @[simp] theorem notifySubs_eff (s : State) : (notifySubs s).eff = s.eff := by ns_frame
@@ -242,34 +344,40 @@ theorem notifySubs_effect {s : State}
 theorem notifySubs_dcore {s : State} (r1 : s.dstate ≠ .notifying) (r2 : s.dstate = .dirty → s.chan = true)
     (hv : s.value ≠ none) (m1 : s.manualLive = true → s.value = s.lastManual)
     (aw : ∀ a ∈ s.aws, AwOK s.loading a) (s1 : s.viaMemo = true → s.smDirty = false → s.smVal = s.src ∧ s.smRc = s.rc)
-    (s2 : s.smDirty = true → s.chan = true) : DCore (notifySubs s) := by
-  refine ⟨?_, ?_, ?_, ?_, ?_, ?_, ?_⟩ <;> simp_all
-  intro a ha
-  exact (aw a ha).wake
+    (s2 : s.smDirty = true → s.chan = true) (t1 : s.tickFired = false → tickLive s) : DCore (notifySubs s) := by
+  refine ⟨?_, ?_, ?_, ?_, ?_, ?_, ?_, ?_⟩ <;> simp_all
+  · intro a ha
+    exact (aw a ha).wake
+  · intro hf
+    rcases t1 hf with h | h
+    · exact .inl (by simpa using h)
+    · exact .inr (by simpa using anyTick_wake _ _ h)
 
 theorem Inv.manualSet {s : State} (h : Inv s) (v : Val) : Inv (manualSet s v) := by
-  obtain ⟨⟨r1, r2, r7, m1, aw, s1, s2⟩, ⟨r3, r4, r5, r6, fresh⟩, ⟨e1, e2, e3, e5, e6, e7, e8⟩, ew⟩ := h
+  obtain ⟨⟨r1, r2, r7, m1, aw, s1, s2, t1⟩, ⟨r3, r4, r5, r6, fresh⟩, ⟨e1, e2, e3, e5, e6, e7, e8⟩, ew⟩ := h
   unfold Async.manualSet
   have hc := notifySubs_dcore (s := { s with value := some v, manualLive := true, lastManual := some v, msetDuring := true })
-    r1 r2 (by simp) (by simp) aw s1 s2
+    r1 r2 (by simp) (by simp) aw s1 s2 t1
   have he := notifySubs_effect (s := { s with value := some v, manualLive := true, lastManual := some v, msetDuring := true })
     e1 (fun a b => (e2 a b).1) e3 e5 e6 e7 e8 ⟨ew.w1, ew.w2, ew.w3⟩
-  refine ⟨hc, ⟨?_, ?_, ?_, ?_, ?_⟩, he.1, he.2⟩ <;> simp_all [inputsNow]
+  refine ⟨hc, ⟨?_, ?_, ?_, ?_, ?_⟩, he.1, he.2⟩ <;> simp_all [inputsNow] <;> grind
 
 theorem applyResult_mid {s : State} (dc : DCore s) (ec : ECore s) (ew : EWake s)
     (hv : s.version = s.fetchVersion) (hf : s.firstRun = false) (hi : s.initialFut = false)
     (hfr : s.stolen = false → s.dstate = .clean → s.curInputs = inputsNow s) : Mid (applyResult s) := by
-  obtain ⟨r1, r2, r7, m1, aw, s1, s2⟩ := dc
+  obtain ⟨r1, r2, r7, m1, aw, s1, s2, t1⟩ := dc
   obtain ⟨e1, e2, e3, e5, e6, e7, e8⟩ := ec
   dsimp only [applyResult]
   rw [if_pos hv]
   have hc := notifySubs_dcore
-    (s := { s with pending := s.pending - s.idsHeld, idsHeld := 0, curStatus := .done, pc := .waiting,
-                  value := some (fetchFn s.curInputs), manualLive := false })
-    r1 r2 (by simp) (by simp) aw s1 s2
+    (s := { s with
+      pending := s.pending - s.idsHeld, idsHeld := 0, curStatus := .done, pc := .waiting, dataReg := false,
+      value := some (fetchFn s.curInputs), manualLive := false })
+    r1 r2 (by simp) (by simp) aw s1 s2 t1
   have he := notifySubs_effect
-    (s := { s with pending := s.pending - s.idsHeld, idsHeld := 0, curStatus := .done, pc := .waiting,
-                  value := some (fetchFn s.curInputs), manualLive := false })
+    (s := { s with
+      pending := s.pending - s.idsHeld, idsHeld := 0, curStatus := .done, pc := .waiting, dataReg := false,
+      value := some (fetchFn s.curInputs), manualLive := false })
     e1 (fun a b => (e2 a b).1) e3 e5 e6 e7 e8 ⟨ew.w1, ew.w2, ew.w3⟩
   refine ⟨hc, ⟨?_, ?_, ?_⟩, he.1, he.2⟩ <;> simp_all [inputsNow]
 
@@ -291,7 +399,9 @@ def fetchState (s : State) : State := startFetch (if (chk s).2 then dropInitial 
 theorem dIter_def (s : State) : dIter s =
     if s.chan = false then ({ s with reg := true }, false)
     else if (chk s).2 = true ∨ (chk s).1.firstRun = true then
-      (if (fetchState s).curStatus = .ready then (applyResult (fetchState s), true) else (fetchState s, false))
+      (if (fetchState s).tickFired = true ∧ (fetchState s).curStatus = .ready then
+        (applyResult (fetchState s), true)
+       else ({ fetchState s with dataReg := (fetchState s).tickFired }, false))
     else ((chk s).1, true) := by
   simp only [dIter, fetchState, chk, Bool.or_eq_true]
   split
@@ -362,7 +472,7 @@ theorem fetchState_cases (s : State) :
         smDirty := false, initialFut := false,
         firstRun := false, loading := true, version := s.version + 1, fetchVersion := s.version + 1,
         idsHeld := s.susp, pending := s.pending + s.susp, susp := 0, coveredCur := s.readSince,
-        readSince := false, msetDuring := false,
+        readSince := false, msetDuring := false, dataReg := false,
         pc := .fetching }) ∨
     (fetchState s =
       { s with
@@ -374,7 +484,9 @@ theorem fetchState_cases (s : State) :
         curInputs := (if s.viaMemo then (if s.smDirty then s.src else s.smVal) else s.src),
         firstRun := false, loading := true, version := s.version + 1, fetchVersion := s.version + 1,
         idsHeld := s.susp, pending := s.pending + s.susp, susp := 0, coveredCur := s.readSince,
-        readSince := false, msetDuring := false,
+        readSince := false, msetDuring := false, dataReg := false,
+        tickFired := !s.isLocal,
+        aws := (if s.isLocal then s.aws ++ [{ kind := .tick, tag := s.nf + 1 }] else s.aws),
         pc := .fetching }) := by
   by_cases hd : s.dstate = .dirty <;> by_cases hs : s.smDirty = true <;>
     by_cases hi : s.initialFut = true <;> by_cases hch : s.smVal = s.src <;> by_cases hrc : s.smRc = s.rc <;>
@@ -397,7 +509,7 @@ theorem Mid.toFetch {s : State} (h : Mid s) (hn : (chk s).2 = true ∨ (chk s).1
     ((fetchState s).curStatus = .pending ∨ (fetchState s).curStatus = .ready) ∧
     ((fetchState s).stolen = false → (fetchState s).dstate = .clean →
       (fetchState s).curInputs = inputsNow (fetchState s)) := by
-  obtain ⟨⟨r1, r2, r7, m1, aw, s1, s2⟩, ⟨pcw, f1, f2⟩, ⟨e1, e2, e3, e5, e6, e7, e8⟩, ⟨w1, w2, w3⟩⟩ := h
+  obtain ⟨⟨r1, r2, r7, m1, aw, s1, s2, t1⟩, ⟨pcw, f1, f2⟩, ⟨e1, e2, e3, e5, e6, e7, e8⟩, ⟨w1, w2, w3⟩⟩ := h
   have aw' : ∀ a ∈ s.aws, AwOK true a := fun a ha => (aw a ha).loading
   rcases fetchState_cases s with ⟨hc2, hi, hd, hsm, heq⟩ | heq
   · -- the initial future is reused: the check found no change
@@ -407,11 +519,26 @@ theorem Mid.toFetch {s : State} (h : Mid s) (hn : (chk s).2 = true ∨ (chk s).1
       · exact hn
     have hfr' : s.firstRun = true := by
       rw [(chk_false s hc2).2.2] at hfr; exact hfr
-    rw [heq]
-    refine ⟨⟨?_, ?_, ?_, ?_, ?_, ?_, ?_⟩, ⟨?_, ?_, ?_, ?_, ?_, ?_, ?_⟩, ⟨?_, ?_, ?_⟩, ?_, ?_⟩ <;>
+    have ht : (fetchState s).tickFired = false → tickLive (fetchState s) := by
+      rw [heq]; simpa [tickLive] using t1
+    rw [heq] at ht ⊢
+    refine ⟨⟨?_, ?_, ?_, ?_, ?_, ?_, ?_, ht⟩, ⟨?_, ?_, ?_, ?_, ?_, ?_, ?_⟩, ⟨?_, ?_, ?_⟩, ?_, ?_⟩ <;>
       simp_all [lastSeen, inputsNow] <;> grind
-  · rw [heq]
-    refine ⟨⟨?_, ?_, ?_, ?_, ?_, ?_, ?_⟩, ⟨?_, ?_, ?_, ?_, ?_, ?_, ?_⟩, ⟨?_, ?_, ?_⟩, ?_, ?_⟩ <;>
+  · have ht : (fetchState s).tickFired = false → tickLive (fetchState s) := by
+      rw [heq]
+      intro hf
+      have hl : s.isLocal = true := by simpa using hf
+      exact .inr (by simp [hl, isTickOf])
+    have awn : ∀ a ∈ (if s.isLocal = true then s.aws ++ [({ kind := .tick, tag := s.nf + 1 } : Aw)] else s.aws),
+        AwOK true a := by
+      intro a ha
+      split at ha
+      · rcases List.mem_append.mp ha with ha | ha
+        · exact aw' a ha
+        · simp at ha; subst ha; simp [AwOK]
+      · exact aw' a ha
+    rw [heq] at ht ⊢
+    refine ⟨⟨?_, ?_, ?_, ?_, awn, ?_, ?_, ht⟩, ⟨?_, ?_, ?_, ?_, ?_, ?_, ?_⟩, ⟨?_, ?_, ?_⟩, ?_, ?_⟩ <;>
       simp_all [lastSeen, inputsNow] <;> grind
 
 theorem Mid.iter {s : State} (h : Mid s) :
@@ -423,22 +550,28 @@ theorem Mid.iter {s : State} (h : Mid s) :
     rw [if_pos hc]
     refine ⟨fun _ => ?_, fun hh => by simp at hh⟩
     show Inv { s with reg := true }
-    obtain ⟨⟨r1, r2, r7, m1, aw, s1, s2⟩, ⟨pcw, f1, f2⟩, ⟨e1, e2, e3, e5, e6, e7, e8⟩, ⟨w1, w2, w3⟩⟩ := h
-    inv_cases <;> simp_all [lastSeen, inputsNow]
+    obtain ⟨⟨r1, r2, r7, m1, aw, s1, s2, t1⟩, ⟨pcw, f1, f2⟩, ⟨e1, e2, e3, e5, e6, e7, e8⟩, ⟨w1, w2, w3⟩⟩ := h
+    inv_cases <;> simp_all [lastSeen, inputsNow, tickLive]
   · rw [if_neg hc]
     by_cases hn : (chk s).2 = true ∨ (chk s).1.firstRun = true
     · rw [if_pos hn]
       obtain ⟨dc, ec, ew, hst, hfr⟩ := h.toFetch hn
-      by_cases hr : (fetchState s).curStatus = .ready
+      by_cases hr : (fetchState s).tickFired = true ∧ (fetchState s).curStatus = .ready
       · rw [if_pos hr]
         refine ⟨fun hh => by simp at hh, fun _ => ?_⟩
         exact ⟨applyResult_mid dc ec ew (fetchState_version s) (fetchState_firstRun s)
           (fetchState_initialFut s) hfr, by simp [fetchState_chan], by simp [fetchState_firstRun]⟩
       · rw [if_neg hr]
         refine ⟨fun _ => ?_, fun hh => by simp at hh⟩
-        show Inv (fetchState s)
-        refine ⟨dc, ⟨?_, ?_, ?_, ?_, ?_⟩, ec, ew⟩ <;>
-          simp_all [fetchState_pc, fetchState_firstRun, fetchState_initialFut, fetchState_version]
+        show Inv { fetchState s with dataReg := (fetchState s).tickFired }
+        obtain ⟨r1, r2, r7, m1, aw, s1, s2, t1⟩ := dc
+        obtain ⟨e1, e2, e3, e5, e6, e7, e8⟩ := ec
+        obtain ⟨w1, w2, w3⟩ := ew
+        have h1 := fetchState_pc s
+        have h2 := fetchState_firstRun s
+        have h3 := fetchState_initialFut s
+        have h4 := fetchState_version s
+        inv_cases <;> simp_all [lastSeen, inputsNow, tickLive] <;> grind
     · rw [if_neg hn]
       refine ⟨fun hh => by simp at hh, fun _ => ?_⟩
       show Mid (chk s).1 ∧ (chk s).1.chan = false ∧ (chk s).1.firstRun = false
@@ -452,9 +585,9 @@ theorem Mid.iter {s : State} (h : Mid s) :
         · exact absurd (.inr h2) hn
       obtain ⟨hd, hsm, heq⟩ := chk_false s hc2
       rw [heq] at hf2 ⊢
-      obtain ⟨⟨r1, r2, r7, m1, aw, s1, s2⟩, ⟨pcw, f1, f2⟩, ⟨e1, e2, e3, e5, e6, e7, e8⟩, ⟨w1, w2, w3⟩⟩ := h
-      refine ⟨⟨⟨?_, ?_, ?_, ?_, ?_, ?_, ?_⟩, ⟨?_, ?_, ?_⟩, ⟨?_, ?_, ?_, ?_, ?_, ?_, ?_⟩, ⟨?_, ?_, ?_⟩⟩, ?_, ?_⟩ <;>
-        simp_all [lastSeen, inputsNow] <;> grind
+      obtain ⟨⟨r1, r2, r7, m1, aw, s1, s2, t1⟩, ⟨pcw, f1, f2⟩, ⟨e1, e2, e3, e5, e6, e7, e8⟩, ⟨w1, w2, w3⟩⟩ := h
+      refine ⟨⟨⟨?_, ?_, ?_, ?_, ?_, ?_, ?_, ?_⟩, ⟨?_, ?_, ?_⟩, ⟨?_, ?_, ?_, ?_, ?_, ?_, ?_⟩, ⟨?_, ?_, ?_⟩⟩, ?_, ?_⟩ <;>
+        simp_all [lastSeen, inputsNow, tickLive] <;> grind
 
 /-- entering the loop and running it to the next suspension point re-establishes the invariant -/
 theorem Mid.loop {s : State} (h : Mid s) : Inv (dLoop 3 s) := by
@@ -471,27 +604,27 @@ theorem Mid.loop {s : State} (h : Mid s) : Inv (dLoop 3 s) := by
 
 theorem Inv.pollD {s : State} (h : Inv s) : Inv (pollD s) := by
   unfold Async.pollD
-  obtain ⟨⟨r1, r2, r7, m1, aw, s1, s2⟩, ⟨r3, r4, r5, r6, fresh⟩, ⟨e1, e2, e3, e5, e6, e7, e8⟩, ⟨w1, w2, w3⟩⟩ := h
+  obtain ⟨⟨r1, r2, r7, m1, aw, s1, s2, t1⟩, ⟨r3, r4, r5, r6, fresh⟩, ⟨e1, e2, e3, e5, e6, e7, e8⟩, ⟨w1, w2, w3⟩⟩ := h
   dsimp only
   split
   · -- first poll
     rename_i hpc
     apply Mid.loop
-    refine ⟨⟨?_, ?_, ?_, ?_, ?_, ?_, ?_⟩, ⟨?_, ?_, ?_⟩, ⟨?_, ?_, ?_, ?_, ?_, ?_, ?_⟩, ⟨?_, ?_, ?_⟩⟩ <;>
-      (simp only [lastSeen, inputsNow] at *; (try split)) <;> simp_all
+    refine ⟨⟨?_, ?_, ?_, ?_, ?_, ?_, ?_, ?_⟩, ⟨?_, ?_, ?_⟩, ⟨?_, ?_, ?_, ?_, ?_, ?_, ?_⟩, ⟨?_, ?_, ?_⟩⟩ <;>
+      (simp only [lastSeen, inputsNow, tickLive] at *; (try split)) <;> simp_all
   · rename_i hpc
     apply Mid.loop
-    refine ⟨⟨?_, ?_, ?_, ?_, ?_, ?_, ?_⟩, ⟨?_, ?_, ?_⟩, ⟨?_, ?_, ?_, ?_, ?_, ?_, ?_⟩, ⟨?_, ?_, ?_⟩⟩ <;>
-      simp_all [lastSeen, inputsNow]
+    refine ⟨⟨?_, ?_, ?_, ?_, ?_, ?_, ?_, ?_⟩, ⟨?_, ?_, ?_⟩, ⟨?_, ?_, ?_, ?_, ?_, ?_, ?_⟩, ⟨?_, ?_, ?_⟩⟩ <;>
+      simp_all [lastSeen, inputsNow, tickLive]
   · rename_i hpc
     split
     · apply Mid.loop
       apply applyResult_mid
-      · exact ⟨r1, r2, r7, m1, aw, s1, s2⟩
+      · exact ⟨r1, r2, r7, m1, aw, s1, s2, t1⟩
       · exact ⟨e1, e2, e3, e5, e6, e7, e8⟩
       · exact ⟨w1, w2, w3⟩
       all_goals simp_all [inputsNow]
-    · inv_cases <;> simp_all [lastSeen, inputsNow]
+    · inv_cases <;> simp_all [lastSeen, inputsNow, tickLive]
 
 
 
@@ -526,6 +659,18 @@ structure Frame (s s' : State) : Prop where
   viaMemo : s'.viaMemo = s.viaMemo
   smDirty : s'.smDirty = s.smDirty
   smVal : s'.smVal = s.smVal
+  smRc : s'.smRc = s.smRc
+  rc : s'.rc = s.rc
+  pending : s'.pending = s.pending
+  susp : s'.susp = s.susp
+  idsHeld : s'.idsHeld = s.idsHeld
+  readSince : s'.readSince = s.readSince
+  coveredCur : s'.coveredCur = s.coveredCur
+  msetDuring : s'.msetDuring = s.msetDuring
+  nf : s'.nf = s.nf
+  tick0 : s'.tick0 = s.tick0
+  tickFired : s'.tickFired = s.tickFired
+  dataReg : s'.dataReg = s.dataReg
   dstate : s'.dstate = s.dstate
   stolen : s'.stolen = s.stolen
 
@@ -533,8 +678,8 @@ theorem Frame.refl (s : State) : Frame s s := by
   constructor <;> simp
 
 theorem Frame.trans {a b c : State} (h1 : Frame a b) (h2 : Frame b c) : Frame a c := by
-  obtain ⟨_, _, _, _, _, _, _, _, _, _, _, _, _, _, _, _, _, _, _, _, _, _, _, _, _, _, _⟩ := h1
-  obtain ⟨_, _, _, _, _, _, _, _, _, _, _, _, _, _, _, _, _, _, _, _, _, _, _, _, _, _, _⟩ := h2
+  obtain ⟨_, _, _, _, _, _, _, _, _, _, _, _, _, _, _, _, _, _, _, _, _, _, _, _, _, _, _, _, _, _, _, _, _, _, _, _, _, _, _⟩ := h1
+  obtain ⟨_, _, _, _, _, _, _, _, _, _, _, _, _, _, _, _, _, _, _, _, _, _, _, _, _, _, _, _, _, _, _, _, _, _, _, _, _, _, _⟩ := h2
   constructor <;> simp_all
 
 theorem Frame.dAsSource (s : State) : Frame s (dAsSource s).1 := by
@@ -577,12 +722,12 @@ theorem runEffect_inv {s : State} (dc : DCore s) (dr : DRest s)
     (e6 : s.stolen = false) (hd : s.eDirty = false)
     (hc : hasMemo s.eff = false → s.eChan = false) :
     DCore (runEffect s) ∧ DRest (runEffect s) ∧ ECore (runEffect s) := by
-  obtain ⟨r1, r2, r7, m1, aw, s1, s2⟩ := dc
+  obtain ⟨r1, r2, r7, m1, aw, s1, s2, t1⟩ := dc
   obtain ⟨r3, r4, r5, r6, fresh⟩ := dr
   obtain ⟨ms, mv, mr, x, h⟩ := runEffect_spec s
   rw [h]
-  refine ⟨⟨?_, ?_, ?_, ?_, ?_, ?_, ?_⟩, ⟨?_, ?_, ?_, ?_, ?_⟩, ⟨?_, ?_, ?_, ?_, ?_, ?_, ?_⟩⟩ <;>
-    simp_all [lastSeen, inputsNow]
+  refine ⟨⟨?_, ?_, ?_, ?_, ?_, ?_, ?_, ?_⟩, ⟨?_, ?_, ?_, ?_, ?_⟩, ⟨?_, ?_, ?_, ?_, ?_, ?_, ?_⟩⟩ <;>
+    simp_all [lastSeen, inputsNow, tickLive]
   exact hasEffect_of_hasMemo _
 
 /-- normal form of one iteration of the effect's loop -/
@@ -611,13 +756,13 @@ theorem effUpdate_inv {s : State} (dc : DCore s) (dr : DRest s)
     (effUpdate s).1.stolen = false ∧
     (s.eDirty = false → hasEffect s.eff = true → s.eFirst = false →
       lastSeen (effUpdate s).1 = some (effUpdate s).1.value) := by
-  obtain ⟨r1, r2, r7, m1, aw, s1, s2⟩ := dc
+  obtain ⟨r1, r2, r7, m1, aw, s1, s2, t1⟩ := dc
   obtain ⟨r3, r4, r5, r6, fresh⟩ := dr
   unfold effUpdate
   by_cases hd : s.eDirty = true
   · rw [if_pos hd]
-    refine ⟨⟨?_, ?_, ?_, ?_, ?_, ?_, ?_⟩, ⟨?_, ?_, ?_, ?_, ?_⟩, ?_, ?_, ?_, ?_, ?_, ?_, ?_, ?_, ?_⟩ <;>
-      simp_all [lastSeen, inputsNow]
+    refine ⟨⟨?_, ?_, ?_, ?_, ?_, ?_, ?_, ?_⟩, ⟨?_, ?_, ?_, ?_, ?_⟩, ?_, ?_, ?_, ?_, ?_, ?_, ?_, ?_, ?_⟩ <;>
+      simp_all [lastSeen, inputsNow, tickLive]
   · rw [if_neg hd]
     have hmm : hasMemo s.eff = true := by
       cases h : hasMemo s.eff
@@ -627,9 +772,9 @@ theorem effUpdate_inv {s : State} (dc : DCore s) (dr : DRest s)
     have hfr := Frame.effAny L s
     generalize effAny L s = r at *
     obtain ⟨f1, f2, f3, f4, f5, f6, f7, f8, f9, f10, f11, f12, f13, f14, f19, f20, f21,
-      f22, f23, f24, f25, f26, g1, g2, g3, g4, g5⟩ := hfr
-    refine ⟨⟨?_, ?_, ?_, ?_, ?_, ?_, ?_⟩, ⟨?_, ?_, ?_, ?_, ?_⟩, ?_, ?_, ?_, ?_, ?_, ?_, ?_, ?_, ?_⟩ <;>
-      simp_all [lastSeen, inputsNow]
+      f22, f23, f24, f25, f26, g1, g2, g3, g6, g7, k1, k2, k3, k4, k5, k6, n1, n2, n3, n4, g4, g5⟩ := hfr
+    refine ⟨⟨?_, ?_, ?_, ?_, ?_, ?_, ?_, ?_⟩, ⟨?_, ?_, ?_, ?_, ?_⟩, ?_, ?_, ?_, ?_, ?_, ?_, ?_, ?_, ?_⟩ <;>
+      simp_all [lastSeen, inputsNow, tickLive]
 
 /-- one iteration of the effect's loop, from a state satisfying everything but the effect's wake-up
 clauses: either it suspends and the full invariant holds, or it goes round again in such a state -/
@@ -641,15 +786,15 @@ theorem eIter_inv {s : State} (dc : DCore s) (dr : DRest s) (ec : ECore s) :
   · rw [if_pos hc]
     refine ⟨fun _ => ?_, fun hh => by simp at hh⟩
     show Inv { s with eReg := true }
-    obtain ⟨r1, r2, r7, m1, aw, s1, s2⟩ := dc
+    obtain ⟨r1, r2, r7, m1, aw, s1, s2, t1⟩ := dc
     obtain ⟨r3, r4, r5, r6, fresh⟩ := dr
     obtain ⟨e1, e2, e3, e5, e6, e7, e8⟩ := ec
-    inv_cases <;> simp_all [lastSeen, inputsNow]
+    inv_cases <;> simp_all [lastSeen, inputsNow, tickLive]
   · rw [if_neg hc]
     have hc' : s.eChan = true := by simpa using hc
     obtain ⟨e1, e2, e3, e5, e6, e7, e8⟩ := ec
     have hu := effUpdate_inv (s := { s with eReg := true, eChan := false })
-      ⟨dc.r1, dc.r2, dc.r7, dc.m1, dc.aw, dc.s1, dc.s2⟩ ⟨dr.r3, dr.r4, dr.r5, dr.r6, dr.fresh⟩ e2 e6 (fun h => e5 h hc')
+      ⟨dc.r1, dc.r2, dc.r7, dc.m1, dc.aw, dc.s1, dc.s2, dc.t1⟩ ⟨dr.r3, dr.r4, dr.r5, dr.r6, dr.fresh⟩ e2 e6 (fun h => e5 h hc')
     generalize effUpdate { s with eReg := true, eChan := false } = u at *
     obtain ⟨udc, udr, ud, uc, uf, ue, usd, usm, udirty, ust, useen⟩ := hu
     by_cases hrun : u.2 = true ∨ u.1.eFirst = true
@@ -678,10 +823,10 @@ theorem eLoop_inv (n : Nat) {s : State} (dc : DCore s) (dr : DRest s) (ec : ECor
   induction n generalizing s with
   | zero =>
     show Inv { s with eWoken := true }
-    obtain ⟨r1, r2, r7, m1, aw, s1, s2⟩ := dc
+    obtain ⟨r1, r2, r7, m1, aw, s1, s2, t1⟩ := dc
     obtain ⟨r3, r4, r5, r6, fresh⟩ := dr
     obtain ⟨e1, e2, e3, e5, e6, e7, e8⟩ := ec
-    inv_cases <;> simp_all [lastSeen, inputsNow]
+    inv_cases <;> simp_all [lastSeen, inputsNow, tickLive]
   | succ n ih =>
     rw [eLoop]
     obtain ⟨h0, h1⟩ := eIter_inv dc dr ec
@@ -695,7 +840,7 @@ theorem eLoop_inv (n : Nat) {s : State} (dc : DCore s) (dr : DRest s) (ec : ECor
 theorem Inv.pollE {s : State} (h : Inv s) : Inv (pollE s) := by
   unfold Async.pollE
   obtain ⟨dc, dr, ec, ew⟩ := h
-  exact eLoop_inv 4 (s := { s with eWoken := false }) ⟨dc.r1, dc.r2, dc.r7, dc.m1, dc.aw, dc.s1, dc.s2⟩
+  exact eLoop_inv 4 (s := { s with eWoken := false }) ⟨dc.r1, dc.r2, dc.r7, dc.m1, dc.aw, dc.s1, dc.s2, dc.t1⟩
     ⟨dr.r3, dr.r4, dr.r5, dr.r6, dr.fresh⟩ ⟨ec.e1, ec.e2, ec.e3, ec.e5, ec.e6, ec.e7, ec.e8⟩
 
 /-! ## every event -/
@@ -706,6 +851,7 @@ theorem Inv.pollNth {s : State} (h : Inv s) (j : Nat) : Inv (pollNth s j) := by
   split
   · rename_i t _
     cases t
+    · exact h.pollT0
     · exact h.pollD
     · exact h.pollE
     · exact h.pollA _
@@ -714,12 +860,13 @@ theorem Inv.pollNth {s : State} (h : Inv s) (j : Nat) : Inv (pollNth s j) := by
 theorem Inv.step {s : State} (h : Inv s) (e : Event) : Inv (step s e) := by
   cases e with
   | set i v => exact h.setSrc i v
-  | refetch => exact h.dMarkDirty
+  | refetch => exact h.refetch
   | manualSet v => exact h.manualSet v
   | complete f => exact h.complete f
   | attach => exact h.attach
   | poll j => exact h.pollNth j
   | get => exact h
+  | bread => exact h.bread
 
 theorem Inv.foldl {s : State} (h : Inv s) (es : List Event) : Inv (es.foldl Async.step s) := by
   induction es generalizing s with
